@@ -183,6 +183,22 @@ impl Lattice {
     }
 }
 
+#[cfg(vibrato_verif)]
+impl Lattice {
+    /// All nodes other than BOS as `(end_word, node)`, the EOS node and the sentence length.
+    pub fn verif_nodes(&self) -> (Vec<(usize, Node)>, Option<Node>, usize) {
+        let mut nodes = vec![];
+        for (end_word, v) in self.ends.iter().enumerate().take(self.len_char + 1) {
+            for n in v {
+                if n.start_node != MAX_SENTENCE_LENGTH {
+                    nodes.push((end_word, n.clone()));
+                }
+            }
+        }
+        (nodes, self.eos.clone(), self.len_char)
+    }
+}
+
 impl std::fmt::Debug for Lattice {
     fn fmt(&self, f: &mut std::fmt::Formatter<'_>) -> std::fmt::Result {
         writeln!(f, "Lattice {{ eos: {:?}, ends: [", &self.eos)?;
